@@ -614,7 +614,10 @@ class UCSolutionEnumerator():
                     if not df.has_complex_window:
                         w = merged_levels[df].window
                         if not w.predicate(*[(merged_levels[f]).name for f in w.factors]):
+                            # One rejecting derived factor is enough; another one may
+                            # reject the same source combination.
                             sc_indices.remove(sc_idx)
+                            break
 
             components_shape.combinations_shapes.append(len(sc_indices))
             if isinstance(valid_source_combinations_indices, list):
